@@ -155,6 +155,29 @@ class ExecMixin:
                 return v.ci.name, tuple(dict.fromkeys(names + full))
             n = v.ext.split(".")[-1]
             return n, tuple(self.bi.exc_mro(n))
+        if isinstance(e, ast.Call) and isinstance(v, FuncV):
+            # raise helper(...): the helper returns the exception object
+            r = self.eval(e, state)
+            opts = r.opts if isinstance(r, Union) else (r,)
+            names = set()
+            for o in opts:
+                if isinstance(o, Opaque) and o.tag.startswith("exception:"):
+                    names.add(o.tag[len("exception:"):])
+                elif isinstance(o, Ptr) and o.loc in state.heap and isinstance(state.heap[o.loc].obj, InstObj):
+                    names.add("@" + state.heap[o.loc].obj.cls.fq)
+                else:
+                    names.add("?")
+            if len(names) == 1 and not state.bottom:
+                n = names.pop()
+                if n.startswith("@"):
+                    ci = state.heap[[o for o in opts][0].loc].obj.cls
+                    cn = [c.name for c in ci.mro] + [x.split(".")[-1] for x in ci.ext_ancestors()]
+                    full = []
+                    for x in cn:
+                        full.extend(self.bi.exc_mro(x))
+                    return ci.name, tuple(dict.fromkeys(cn + full))
+                if n != "?":
+                    return n, tuple(self.bi.exc_mro(n))
         return f"?{norm_text(f, 40)}", ()
 
     def exec_FunctionDef(self, st, state):
@@ -213,7 +236,7 @@ class ExecMixin:
         if state.bottom:
             return
         if isinstance(target, ast.Name):
-            self.set_var(target.id, v, state)
+            self.set_var(target.id, v, state, target)
         elif isinstance(target, (ast.Tuple, ast.List)):
             items = self.unpack(v, len(target.elts), state, st, any(isinstance(e, ast.Starred) for e in target.elts))
             if items is None:
@@ -239,7 +262,7 @@ class ExecMixin:
         else:
             self.note_undecided(f"unsupported assignment target {type(target).__name__}", st)
 
-    def set_var(self, name: str, v: Val, state: State) -> None:
+    def set_var(self, name: str, v: Val, state: State, site=None) -> None:
         fr = self.stack[-1]
         if TRACE and os.environ.get("OSV_TRACE") == "2":
             print("  " * len(self.stack), f"    {name} := {short(v)}")
@@ -247,7 +270,7 @@ class ExecMixin:
             v = self.with_pc(v, state)
         if isinstance(v, Num) and v.sym is None and v.const is None and self.number_locals:
             # value numbering of sym-less locals: "the value of this variable in the current iteration of the active loops"
-            v = replace(v, sym=("opq", fr.label, name, tuple(l.token for l in self.loops)))
+            v = replace(v, sym=("opq", fr.label, name, tuple(l.token for l in self.loops), self.site_id("opq-assign", site)))
         if name in (getattr(fr, "globals_", None) or ()):
             self.event("global-write", None, name=name, module=fr.module.name)
             state.effects = state.effects | {("global", f"{fr.module.name}.{name}")}
@@ -622,7 +645,7 @@ class ExecMixin:
                 toks = tuple(l.token for l in self.loops)
                 for key, v in list(res.vars.items()):
                     if key[0] == fid and isinstance(v, Num) and v.sym is None and v.const is None:
-                        res.vars[key] = replace(v, sym=("opq", frame.label, key[1], toks))
+                        res.vars[key] = replace(v, sym=("opq", frame.label, key[1], toks, self.site_id("opq-loop-exit", node)))
         state.assign_from(res)
 
     def exec_Break(self, st, state):
